@@ -4,6 +4,7 @@ trips of the text codecs of Model/Id3Text.lean. -/
 import MutagenModel.Model.Id3Spec
 import MutagenModel.Proofs.IntCodec
 import MutagenModel.Props.C14
+import MutagenModel.Proofs.Id3Rva
 set_option linter.unusedVariables false
 set_option linter.unusedSimpArgs false
 namespace Mutagen.Id3
@@ -961,7 +962,7 @@ def Valid (E : Env) (c : Ctx) (k : SpecKind) (v : Val) : Prop :=
       c.aspiN = some (vs.length : Int) ∧ v = .list (vs.map natVal) ∧ vs ≠ [] ∧
       ∀ x ∈ vs, x < 256 ^ (if b = 16 then 2 else 1)
   | .frames => ∃ fs b, v = .list fs ∧ E.subw E.cfg fs = .ok b ∧ E.sub { E.h with unsynch := false } b = .ok (fs, [])
-  | .rva _ => False
+  | .rva m => ∃ vals : List Int, v = .list (vals.map Val.int) ∧ RvaOK m vals
 
 /-- what `read` returns for a written value: the value itself, except that a peak written
 as `n/2^15` comes back as `(n·2^16)/(2^31-1)` -/
@@ -1041,7 +1042,7 @@ theorem readSpec_frames (fs : List Val) (r : Bytes) (hs : sub { h with unsynch :
 end unfold
 
 /-- THE spec-level round trip: for every spec kind with a `Valid` value (all kinds of the
-frame table except `RVASpec`), what `write` produces, followed by `rest`, is read back as
+frame table; `RVASpec`: `RvaOK`, Proofs/Id3Rva.lean), what `write` produces, followed by `rest`, is read back as
 the same value (`normVal`: the peak in its read-side scale) leaving `rest`; a spec without
 `handle_nodata` writes at least one byte. -/
 theorem read_write (E : Env) (c : Ctx) (k : SpecKind) (v : Val) (hv : Valid E c k v) (rest : Bytes)
@@ -1163,7 +1164,12 @@ theorem read_write (E : Env) (c : Ctx) (k : SpecKind) (v : Val) (hv : Valid E c 
     subst this
     exact ⟨b, by rw [writeSpec_frames, hw], by rw [List.append_nil, readSpec_frames _ _ _ _ _ _ hrd]; rfl,
       by simp [handleNoData]⟩
-  | rva m => exact absurd hv (by simp [Valid])
+  | rva m =>
+    obtain ⟨vals, rfl, hok⟩ := hv
+    have : rest = [] := hr rfl
+    subst this
+    obtain ⟨b, h1, h2, h3⟩ := readRva_writeRva m vals hok
+    exact ⟨b, h1, by rw [List.append_nil]; exact h2, fun _ => h3⟩
 
 /-! ## the frame level: `_writeData` / `_readData` -/
 
